@@ -350,16 +350,16 @@ int secp256k1_ecdsa_adaptor_recover(const secp256k1_context* ctx, unsigned char 
     /* We declassify non-secret enckey_expected_ge to allow using it as a
      * branch point. */
     secp256k1_declassify(ctx, &enckey_expected_ge, sizeof(enckey_expected_ge));
-    /* enckey_expected_ge cannot be infinity:
-     *
-     * Proof:
-     *     enckey_expected_ge is infinity <=> deckey = 0
-     *     deckey = 0 <=> s^-1 = 0 or sp = 0
-     *     case 1: s^-1 = 0 impossible by the definition of multiplicative
-     *             inverse and because the scalar_inverse implementation
-     *             VERIFY_CHECKs that the inputs are valid scalars.
+    /* enckey_expected_ge is infinity <=> deckey = 0 <=> s^-1 = 0 or sp = 0.
+     *     case 1: s^-1 = 0 <=> s = 0, which the ECDSA signature parsers accept
+     *             (secp256k1_scalar_inverse maps 0 to 0). Such a signature does
+     *             not belong to any adaptor signature, so fail here instead of
+     *             serializing the point at infinity.
      *     case 2: sp = 0 impossible because ecdsa_adaptor_sig_deserialize would have already failed
      */
+    if (secp256k1_ge_is_infinity(&enckey_expected_ge)) {
+        return 0;
+    }
     secp256k1_eckey_pubkey_serialize33(&enckey_expected_ge, enckey_expected33);
     if (!secp256k1_pubkey_load(ctx, &enckey_ge, enckey)) {
         return 0;
